@@ -112,7 +112,7 @@ PROPERTIES = {
     "C02": {
         "level": "exploration",
         "rule": ("generated event forests on Runtime<App> (1..2000 events, branching <= 5, delays 0 / 1 ns / around bucket and year boundaries / random, shared "
-                 "delays producing equal timestamps, add_event and add_event_in) x start times (0, 1 ns, bucket / year multiples, 10 s, 1e6 s where the scan "
+                 "delays producing equal timestamps, add_event and add_event_in - also for the events scheduled before the run and in at_sim_start) x start times (0, 1 ns, bucket / year multiples, 10 s, 1e6 s where the scan "
                  "from zero stays bounded) x calendar-queue parameters (and the default ones); every handler logs (id, scheduled, SimTime::now()), attempts "
                  "add_event in the past under catch_unwind on marked events, the clock writer is observed through hook H4 and the event set is walked "
                  "through H6; every third program is additionally driven in random n-event / until-time steps, and after every step add_event(sim_time() - 1 ns) "
@@ -182,7 +182,7 @@ PROPERTIES = {
         "level": "exploration",
         "rule": ("two-module rig tx.out -> rx.in over one channel: bitrate {0,1,3,8,1e3,8e3,1e6,1e9,1e12,1e13,123456789} x latency {0,3ns,1ms,1s} x jitter {0,1ms,1s} x "
                  "policy {Drop, Queue(None), Queue(0), Queue(L) with L at / one below / one above sums of the message lengths in play}; offers in bursts of 1..50 "
-                 "inside one handler with gaps below / at / above the transmission time, several busy periods, body sizes {0..65000}; plus an enumerated "
+                 "inside one handler with gaps below / at / above the transmission time, several busy periods, body sizes {0..65000}, the connect call issued from either end; every 100 cases a second link created at run time inside a handler from the channel of the first link while that is transmitting (the new direction must be idle and deliver after exactly tx + latency); plus an enumerated "
                  "boundary grid (limit = k*len-1, k*len, k*len+1 x burst 1..5). Every offer logs the channel's busy flag, finish time and queue "
                  "(hook: Channel::verif_state) before and after; every arrival is logged by the receiver. Oracle: reference automaton with exact integer "
                  "arithmetic (only size/bitrate combinations whose rounding to ns is unambiguous are generated): busy flag, finish time and queue length at "
@@ -205,9 +205,9 @@ PROPERTIES = {
     "C08": {
         "level": "exploration",
         "rule": ("declared gate chains [g0..gk], k = 1..20 hops (a twelfth: 17..50 hops, mostly without channels, so that more than 16 hops are traversed within one event), gates on one module / a line of modules / random modules, named gates or clusters, channels "
-                 "(bitrate, latency, zero jitter) on random hops; built by connect calls in EVERY permutation for k <= 5 (every orientation vector for k <= 4) "
+                 "(bitrate, latency, a quarter of them with a small jitter: the arrival must then lie in [sum, sum + jitters]) on random hops; built by connect calls in EVERY permutation for k <= 5 (every orientation vector for k <= 4) "
                  "and random permutations / orientations above, with repeated calls mixed in; 1..4 uncontended messages per chain in both directions with send "
-                 "and send_in, a fifth of them sent by a third module through a reference to the end gate. Oracle = the declared chain: kind of every gate, path_iter from both ends (exact mirror images), path_end, channel(), symmetry "
+                 "and send_in, a fifth of them sent by a third module through a reference to the end gate (which, in a third of the cases, shuts itself down in the event of its last send). Oracle = the declared chain: kind of every gate, path_iter from both ends (exact mirror images), path_end, channel(), symmetry "
                  "after each connect, idempotence of repeated connects, rejection of a third peer; each message handled exactly once, by the owner of the far "
                  "end, at send time + sum of per-hop (latency + size*8/bitrate), with sender id, receiver id and last gate in the header. Non-trivial = chain "
                  "with >= 2 hops that checked clean; distinct = hash of the case."),
@@ -273,7 +273,7 @@ PROPERTIES = {
         "level": "exploration",
         "rule": ("1..3 async modules with 1..4 triggers each (inside at_sim_start, or a message at a generated instant; several triggers may share an instant): "
                  "spawn bursts of N tasks that yield k times and optionally sleep to a common deadline (timer wake-up of N tasks at once), notify_waiters "
-                 "broadcasts to N waiting tasks, wake chains of depth <= 2000 through oneshot / mpsc / semaphore / join handles, one task draining up to 10000 "
+                 "broadcasts to N waiting tasks, wake chains of depth <= 2000 through oneshot / mpsc / semaphore / join handles (a third of them alternating between tokio::spawn and spawn_local tasks), one task draining up to 10000 "
                  "channel items in one instant (tokio coop budget), N tasks woken by a processing element that consumes the trigger message (the handler never runs "
                  "in that event), a handler that fires its trigger and requests the shutdown of its module in the same event; N in {1,2,60,61,62,122,123,200,1000,5000}; each with tokio::spawn and with spawn_local "
                  "(every tenth case: spawn_local work needing more than one LocalSet turn of 61 polls). Every task logs SimTime::now() after each await; the "
@@ -426,7 +426,7 @@ PROPERTIES = {
                  "des::runtime::random, choose the out gate and an extra send_in delay from it; start delays drawn with des::runtime::sample; tasks with "
                  "unbiased tokio::select! over three ready futures, select over interval.tick vs a long sleep, random sleeps; a third of the modules requests "
                  "shutdown-and-restart (the restart rebuilds and reseeds the module's tokio runtime), a third emits a message from at_sim_end (never dispatched; "
-                 "it must not reach a later simulation), a third runs 2..8 tasks that sleep to common deadlines and draw a random value when they wake; the driver draws through Runtime::random / rng_sample between build and run. For each (model, seed): executed twice back to back, once "
+                 "it must not reach a later simulation), a third runs 2..8 tasks that sleep to common deadlines and draw a random value when they wake; the driver draws through Runtime::random / rng_sample and reads the clock between build and run. For each (model, seed): executed twice back to back, once "
                  "more after an unrelated simulation of another shape and seed, and (every fourth model) in a separate child process started with a random junk "
                  "allocation. The trace = every delivery (time, module path, kind, id, content, source, value drawn), timer completion, task wake-up, select "
                  "branch, plus final time / event count / remaining / result; all executions must be byte-identical. Non-trivial = model whose trace "
